@@ -5,6 +5,7 @@ package gocql
 
 import (
 	"net"
+	"sync/atomic"
 )
 
 // This file exists only in builds with the "verif" tag. It gives the
@@ -143,4 +144,23 @@ func VerifPolicyHosts(p HostSelectionPolicy) (map[string][]string, bool) {
 		return nil, false
 	}
 	return out, true
+}
+
+// VerifSetPickCounter sets the "queries picked so far" counter of a round-robin based
+// policy (and of a token-aware policy's fallback), so that a run can start where a
+// long-lived session would be after that many picks. It reports false for other policies.
+func VerifSetPickCounter(p HostSelectionPolicy, v uint64) bool {
+	switch t := p.(type) {
+	case *roundRobinHostPolicy:
+		atomic.StoreUint64(&t.lastUsedHostIdx, v)
+	case *dcAwareRR:
+		atomic.StoreUint64(&t.lastUsedHostIdx, v)
+	case *rackAwareRR:
+		atomic.StoreUint64(&t.lastUsedHostIdx, v)
+	case *tokenAwareHostPolicy:
+		return VerifSetPickCounter(t.fallback, v)
+	default:
+		return false
+	}
+	return true
 }
